@@ -994,6 +994,35 @@ def r13(k: Kit) -> None:
     rep.floor('C01.R13', 'main-key body encryptions', n, 1)
 
 
+def r14(k: Kit) -> None:
+    """Nothing read from an unverified header is reported to anyone."""
+    rep = k.rep
+    rep.rule('C01.R14', 'SSHConnection._recv_pkthdr (runs before the MAC of '
+             'the packet can be checked): the exceptions it raises carry '
+             'constant messages - no value decoded from the header (the '
+             'packet length) is formatted into an error that reaches '
+             'connect(), connection_lost(), the log and the DISCONNECT sent '
+             'back; bits an attacker flips in the ciphertext would '
+             'otherwise be readable from the reported reason')
+    fi = k.func('connection.SSHConnection._recv_pkthdr')
+    g = k.cfg(fi)
+    raises = [n for n in g.nodes if isinstance(n.ast, ast.Raise) and
+              n.ast.exc is not None]
+    rep.floor('C01.R14', 'raises in _recv_pkthdr', len(raises), 1)
+    for n in raises:
+        tainted = [x for x in ast.walk(n.ast.exc) if isinstance(
+            x, (ast.Name, ast.Attribute)) and (dotted(x) or '') in (
+                'self._pktlen', 'pktlen', 'self._packet')]
+        rep.check(not tainted, 'C01.R14',
+                  key(fi, 'constant error for a bad header'),
+                  'message does not depend on the decoded header',
+                  f'`{norm(n.ast)[:90]}` puts a value decoded from '
+                  'not-yet-authenticated bytes into the error: flipping '
+                  'the top bits of the first ciphertext block yields three '
+                  'different reasons (2147484396, 1073742572, 3221226220)',
+                  k.loc(fi, n))
+
+
 def run(idx, rep, tier):
     k = Kit(idx, rep)
     rep.assumptions += NOT_DECIDED
@@ -1007,6 +1036,7 @@ def run(idx, rep, tier):
     r10(k)
     r12(k)
     r13(k)
+    r14(k)
     # R8: the two directions use different integrity / encryption keys and
     # each direction its own parameters: = C02.R2 (key schedule by data flow)
     from .c02 import r2 as c02r2
@@ -1037,3 +1067,6 @@ def run(idx, rep, tier):
     _c02r5(k)
     for o in rep.obligations[_before:]:
         o.rule = 'C01.R11'
+    from .shared import share
+    from .c09 import r2 as _c09r2
+    share(k, 'C01.R15', 'a connection error reaches every channel as an error (= clause of C09.R2): process_connection_close hands the exception to _cleanup at once, also while the channel holds undelivered data with reading paused - a later resume must not turn a MAC failure into a clean EOF', _c09r2, keep=lambda key: 'process_connection_close' in key)
